@@ -1058,3 +1058,73 @@ Proof.
   fold s in A, B. rewrite A, <- B. unfold s, run. rewrite fold_left_app. simpl.
   fold (run ops2). rewrite intended_untouched_run by exact T. apply intended_after_wd.
 Qed.
+
+(* ================================================================ 6. End-of-RIB *)
+
+Lemma ebase_run : forall ops es, base (erun ops es) = run ops (base es).
+Proof. induction ops as [|o ops IH]; intros es; [reflexivity|]. simpl. rewrite IH. reflexivity. Qed.
+
+(* every recorded End-of-RIB state is a reachable established state with no live generator *)
+Lemma eor_log_states : forall ops es,
+  Inv (base es) ->
+  (forall s, In s (eor_log es) -> Inv s /\ up s = true /\ gen (r s) = []) ->
+  forall s, In s (eor_log (erun ops es)) -> Inv s /\ up s = true /\ gen (r s) = [].
+Proof.
+  induction ops as [|o ops IH]; intros es I H s Hs; [now apply H|].
+  simpl in Hs. apply (IH (estep es o)); [cbn [estep base]; now apply step_inv| |exact Hs].
+  intros s0 H0. unfold estep in H0. cbn [eor_log] in H0.
+  set (b' := step (base es) o) in *.
+  destruct (_ && _ && up b' && _) eqn:F; [|now apply H].
+  apply in_app_or in H0. destruct H0 as [H0|[<-|[]]]; [now apply H|].
+  apply andb_prop in F. destruct F as [F G]. apply andb_prop in F. destruct F as [_ U].
+  split; [unfold b'; now apply step_inv|]. split; [exact U|].
+  destruct (gen (r b')); [reflexivity|discriminate].
+Qed.
+
+(* when the markers go out, every index for which nothing is queued is at the peer with the reported value:
+   the initial table (and everything queued before) has been sent *)
+Theorem eor_after_table : forall ops s k,
+  In s (eor_log (erun ops (esys0 true))) -> quiet (r s) k ->
+  zget k (peer s) = option_map rval (zget k (seen (r s))).
+Proof.
+  intros ops s k Hs [Qn [Qw Qr]].
+  destruct (eor_log_states ops (esys0 true) Inv0 (fun _ H => match H with end) s Hs) as [I [U G]].
+  destruct I as [C Q WS KS INT V GG FF]. rewrite U in V. destruct V as [V _].
+  specialize (V k). rewrite (view_eq s k Q) in V. rewrite Qn, G in V. cbn [E fold_left] in V.
+  rewrite E_wd in V.
+  assert (existsb (Z.eqb k) (akeys (pend_w (r s))) = false) as X.
+  { destruct (existsb (Z.eqb k) (akeys (pend_w (r s)))) eqn:Ex; [|reflexivity].
+    apply existsb_in in Ex. contradiction. }
+  rewrite X, E_ref in V.
+  assert (lastk k (refresh_routes (r s)) = None) as Y by (apply lastk_none; exact Qr).
+  rewrite Y in V. exact V.
+Qed.
+
+(* at most one End-of-RIB batch per establishment: once sent, none until the next Establish *)
+Lemma eor_due_after_fire : forall es o,
+  length (eor_log (estep es o)) = S (length (eor_log es)) -> eor_due (estep es o) = false.
+Proof.
+  intros es o H. unfold estep in *. cbn [eor_log eor_due] in *.
+  destruct (_ && is_send_op o && _ && _) eqn:F.
+  - rewrite andb_false_r. reflexivity.
+  - lia.
+Qed.
+
+Lemma eor_not_due_no_fire : forall es o, eor_due es = false -> o <> Establish ->
+  eor_log (estep es o) = eor_log es /\ eor_due (estep es o) = false.
+Proof.
+  intros es o D N. unfold estep. cbn [eor_log eor_due].
+  assert (X : (match o with Establish => if up (base es) then eor_due es else true | Drop => false | _ => eor_due es end) = false).
+  { destruct o; try exact D; try reflexivity. contradiction. }
+  rewrite X. cbn [andb]. split; reflexivity.
+Qed.
+
+Theorem eor_once_per_session : forall ops es, eor_due es = false ->
+  forallb (fun o => match o with Establish => false | _ => true end) ops = true ->
+  eor_log (erun ops es) = eor_log es.
+Proof.
+  induction ops as [|o ops IH]; intros es D H; [reflexivity|].
+  simpl in H. apply andb_prop in H. destruct H as [H1 H2].
+  assert (N : o <> Establish) by (intros ->; discriminate).
+  destruct (eor_not_due_no_fire es o D N) as [L D']. simpl. rewrite IH by assumption. exact L.
+Qed.
